@@ -64,7 +64,7 @@ func init() {
 					if code >= 1<<bits {
 						continue
 					}
-					if k, w := check(Case{name, e, bits, code}); k != "" {
+					if k, w := check(Case{Space: name, Entry: e, Bits: bits, Code: code}); k != "" {
 						return w
 					}
 				}
@@ -82,6 +82,9 @@ type Case struct {
 	Entry string `json:"entry"`
 	Bits  int    `json:"bits"`
 	Code  int    `json:"code"`
+	// Interleaved: the failure was seen when the same code was decoded in every space in turn; the replay
+	// decodes it in the other spaces first
+	Interleaved bool `json:"interleaved,omitempty"`
 }
 
 func space(name string) *sp.API {
@@ -243,6 +246,17 @@ func TestC01(t *testing.T) {
 			relational(t, space(c.Space))
 			return
 		}
+		if c.Interleaved {
+			for i := range sp.Spaces {
+				if o := sp.Spaces[i]; o.Name != c.Space && !((c.Entry == "From8Bit" || c.Entry == "From16Bit") && o.From8 == nil) {
+					check(Case{Space: o.Name, Entry: c.Entry, Bits: c.Bits, Code: c.Code})
+					if kind, what := check(c); kind != "" {
+						ev.Fail(t, "decode", c.Space+"/"+c.Entry+"/interleaved-"+kind, "after "+o.Name+": "+what, c)
+						return
+					}
+				}
+			}
+		}
 		if kind, what := check(c); kind != "" {
 			ev.Fail(t, "decode", c.Space+"/"+c.Entry+"/"+kind, what, c)
 		}
@@ -265,7 +279,7 @@ func TestC01(t *testing.T) {
 		a := &sp.Spaces[i]
 		code := int((ev.Seed()*2654435761 + uint64(i)*40503) % 65536)
 		for _, e := range []string{"From16Bit", "ColorFromEncodedColor/RGBA64"} {
-			c := Case{a.Name, e, 16, code}
+			c := Case{Space: a.Name, Entry: e, Bits: 16, Code: code}
 			if kind, what := check(c); kind != "" {
 				ev.Violation("decode", c.Space+"/"+c.Entry+"/"+kind, "first call in process: "+what, c)
 			}
@@ -286,7 +300,7 @@ func TestC01(t *testing.T) {
 				bad := false
 				n := 1 << bits
 				for code := 0; code < n; code++ {
-					c := Case{a.Name, e, bits, code}
+					c := Case{Space: a.Name, Entry: e, Bits: bits, Code: code}
 					ev.Eval(1)
 					ev.NTAdd(1)
 					if bad {
@@ -316,7 +330,7 @@ func TestC01(t *testing.T) {
 					continue
 				}
 				for code := 0; code < 1<<bits; code++ {
-					c := Case{a.Name, e, bits, code}
+					c := Case{Space: a.Name, Entry: e, Bits: bits, Code: code}
 					ev.Eval(1)
 					if kind, what := check(c); kind != "" {
 						ev.Violation("decode", c.Space+"/"+c.Entry+"/second-pass-"+kind, "after every space's tables were used: "+what, c)
@@ -325,6 +339,40 @@ func TestC01(t *testing.T) {
 				}
 			}
 		}
+	}
+	// third pass: the SAME code through every space and entry point back to back (comparing candidate profiles
+	// for one pixel): what one space remembers about a colour must not leak into the next
+	{
+		var ni int64
+		bad := false
+		for _, bits := range []int{8, 16} {
+			es := entries8
+			if bits == 16 {
+				es = entries16
+			}
+			step := 1
+			if bits == 16 && !ev.Thorough() {
+				step = 3
+			}
+			for code := 0; code < 1<<bits && !bad; code += step {
+				for _, e := range es {
+					for i := range sp.Spaces {
+						a := &sp.Spaces[(i+code)%len(sp.Spaces)]
+						if (e == "From8Bit" || e == "From16Bit") && a.From8 == nil {
+							continue
+						}
+						c := Case{Space: a.Name, Entry: e, Bits: bits, Code: code, Interleaved: true}
+						ni++
+						if kind, what := check(c); kind != "" {
+							ev.Violation("decode", c.Space+"/"+c.Entry+"/interleaved-"+kind, "the same code decoded in every space in turn: "+what, c)
+							bad = true
+						}
+					}
+				}
+			}
+		}
+		ev.Eval(ni)
+		ev.Class("interleaved-spaces", ni)
 	}
 	ev.Sample(map[string]any{"space": "srgb", "entry": "From16Bit", "code": 12345, "got": sp.Spaces[0].From16(12345), "published_eotf": ref.EOTF(ref.SRGB, 12345.0/65535)})
 	ev.Sample(map[string]any{"space": "adobergb", "entry": "From8Bit", "code": 1, "got": sp.Spaces[1].From8(1), "published_eotf": ref.EOTF(ref.AdobeRGB, 1.0/255)})
@@ -355,18 +403,18 @@ func relational(t *testing.T, a *sp.API) {
 	for v := 1; v < 65536; v++ {
 		ev.Eval(1)
 		if !(dec16(v) > dec16(v-1)) {
-			ev.Violation("decode", a.Name+"/monotone16", fmt.Sprintf("%s 16-bit decode not strictly increasing: f(%d)=%.9g, f(%d)=%.9g", a.Name, v-1, dec16(v-1), v, dec16(v)), Case{a.Name, "monotone", 16, v})
+			ev.Violation("decode", a.Name+"/monotone16", fmt.Sprintf("%s 16-bit decode not strictly increasing: f(%d)=%.9g, f(%d)=%.9g", a.Name, v-1, dec16(v-1), v, dec16(v)), Case{Space: a.Name, Entry: "monotone", Bits: 16, Code: v})
 			break
 		}
 	}
 	for v := 0; v < 256; v++ {
 		ev.Eval(1)
 		if v > 0 && !(dec8(v) > dec8(v-1)) {
-			ev.Violation("decode", a.Name+"/monotone8", fmt.Sprintf("%s 8-bit decode not strictly increasing at %d", a.Name, v), Case{a.Name, "monotone", 8, v})
+			ev.Violation("decode", a.Name+"/monotone8", fmt.Sprintf("%s 8-bit decode not strictly increasing at %d", a.Name, v), Case{Space: a.Name, Entry: "monotone", Bits: 8, Code: v})
 			break
 		}
 		if math.Float32bits(dec8(v)) != math.Float32bits(dec16(257*v)) {
-			ev.Violation("decode", a.Name+"/8eq16", fmt.Sprintf("%s: 8-bit decode of %d = %.9g but 16-bit decode of %d = %.9g", a.Name, v, dec8(v), 257*v, dec16(257*v)), Case{a.Name, "8eq16", 8, v})
+			ev.Violation("decode", a.Name+"/8eq16", fmt.Sprintf("%s: 8-bit decode of %d = %.9g but 16-bit decode of %d = %.9g", a.Name, v, dec8(v), 257*v, dec16(257*v)), Case{Space: a.Name, Entry: "8eq16", Bits: 8, Code: v})
 			break
 		}
 	}
